@@ -83,7 +83,40 @@ def gate_of(insp, m, safety):
         if comp == 'True' and mat == 'True': return 'refused-though-complete-and-matching'
     return 'ok'
 
-def run_inspector(fmt, data, sizes):
+_others = {}
+def other_images():
+    """small clean and dirty images fed to OTHER inspector objects between eat_chunk and safety_check of the one under test"""
+    if not _others:
+        r = random.Random(7)
+        cl = {}
+        for f in ('qcow2', 'vhd', 'vdi', 'qed', 'gpt', 'luks', 'vmdk', 'raw'):
+            cl[f] = [ib.random_wellformed(f, r).data[:CAP]]
+        cl['qcow2'] = [ib.build('qcow2', r, version=2, length=512).data, ib.build('qcow2', r, version=3, length=512).data]
+        _others['clean'] = cl
+        _others['dirty'] = [ib.build('qcow2', r, version=3, incompat=0xFFF0, backing_offset=104, length=512).data,
+                            ib.build('qcow2', r, version=7, length=512).data, ib.build('luks', r, version=2).data[:CAP],
+                            ib.build('vmdk', r, extents=[ib.L_extent('RW', 1, 'FLAT', '/etc/passwd', 0)]).data[:CAP]]
+    return _others
+
+def disturb(m, fmt, phase):
+    """another inspector of the same class and a wrapper work on other streams (no object is shared with the one under test)"""
+    o = other_images()
+    imgs = (o['clean'].get(fmt, []) + o['dirty']) if phase == 0 else (o['dirty'] + o['clean'].get(fmt, []))
+    for d in imgs:
+        x = m.ALL_FORMATS[fmt]()
+        try:
+            x.eat_chunk(d); x.finish()
+            try: x.safety_check()
+            except Exception: pass
+        except Exception: pass
+    for d in (o['clean']['qcow2'] + o['dirty'][:2]) if phase == 0 else (o['dirty'][:2] + o['clean']['qcow2']):
+        w = m.InspectWrapper(io.BytesIO(d))
+        try:
+            while w.read(4096): pass
+            w.close()
+        except Exception: pass
+
+def run_inspector(fmt, data, sizes, interleave=None):
     m = fi()
     insp = m.ALL_FORMATS[fmt]()
     exn = '-'
@@ -94,6 +127,7 @@ def run_inspector(fmt, data, sizes):
         except Exception as e:
             exn = type(e).__name__; break
     insp.finish()
+    if interleave is not None: disturb(m, fmt, interleave)
     s = safety_of(insp, m)
     return insp, ';'.join([exn, q(lambda: insp.format_match), q(lambda: insp.complete), s, ','.join(insp._safety_checks.keys())]), gate_of(insp, m, s)
 
@@ -368,7 +402,22 @@ def raising_cases(rng, tier):
         yield mk('cli', img, [], 'cli-raising', verbose=bool(j % 2), how='sub' if j % 4 == 0 else 'main')
         yield mk('safety', img, [4096] * (len(img.data) // 4096 + 1) if len(img.data) < 150000 else [65536] * (len(img.data) // 65536 + 1), 'raising')
 
+# ------------------------------------------------------------------ two-signature polyglots whose second signature lies beyond the first 4096-byte read
+def polyglot_cases(rng, tier):
+    for head in ('qcow2', 'vhd', 'vdi', 'gpt', 'luks', 'vmdk', 'qed'):
+        for ident in ((b'CD001', b'NSR02') if tier == 'quick' else ib.ISO_IDENTS):
+            base = ib.random_wellformed(head, rng)
+            d = bytearray(base.data[:CAP]) + bytearray(max(0, 36864 - min(len(base.data), CAP)))
+            if head == 'vmdk' and base.traits.get('has_footer'): continue
+            d[32768:32775] = b'\x01' + ident + b'\x01'
+            d = bytes(d)
+            if ib.signature_present(head, d) is not True or ib.signature_present('iso', d) is not True: continue
+            for how, v in (('main', False), ('sub', True)) if ident == b'CD001' else (('main', False),):
+                yield {'op': 'cli', 'fmt': head, 'z': pack(d), 'sizes': [], 'exp': False, 'why': ['polyglot:%s+iso' % head], 'k': 'cli-polyglot',
+                       'verbose': v, 'how': how, 'own': True}
+
 def gen_cases(rng, tier):
+    yield from polyglot_cases(rng, tier)
     yield from nul_cases(rng, tier)
     yield from raising_cases(rng, tier)
     yield from sweep_cases(rng, tier)
@@ -380,6 +429,12 @@ def gen_cases(rng, tier):
 def impl(c):
     if c['op'] in ('safety', 'spec'):
         insp, obs, gate = run_inspector(c['fmt'], data_of(c), c['sizes'])
+        # for a share of the cases: the same run with other inspectors / a wrapper working on other streams in between
+        # (inspector objects share no state: the verdict must be the same)
+        h = zlib.crc32(repr((c['fmt'], c['sizes'][:4], len(c['z']))).encode())
+        if h % 3 == 0 and c['fmt'] != 'vhdx' and len(data_of(c)) <= 70000:
+            _, obs2, _ = run_inspector(c['fmt'], data_of(c), c['sizes'], interleave=(h // 3) % 2)
+            if obs2 != obs: gate = 'interleaved:' + obs2
         return obs + '|' + gate
     if c['op'] == 'cli':
         if c.get('path') == 'missing': p = os.path.join(TMP, 'no-such-file')
@@ -436,6 +491,8 @@ def oracle(c, io):
     if io.startswith('HARNESS-ERROR'): return io
     if c['op'] in ('safety', 'spec'):
         f, gate = fields(io)
+        if gate.startswith('interleaved:'):
+            return 'the verdict changes when OTHER inspector objects work on other streams between eat_chunk and safety_check (shared state): alone %s, interleaved %s' % (';'.join(f), gate[12:])
         if gate != 'ok':
             return 'safety_check() outcome %s contradicts the object it ran on: %s' % (f[3], gate)
         if f[3].startswith('crash'):
